@@ -28,6 +28,32 @@ API = 'malt/impl/api.py'
 FUNCS = 'malt/converters/functions.py'
 
 
+def _future_rule(model, rep):
+  """The generated module must be compiled with the future features that were
+  in effect for the original source.  Their markers live in the *globals of the
+  function* (`f.__globals__`); `f.__module__` / inspect.getmodule can name
+  another module (functools.wraps copies __module__)."""
+  gi = model.func('malt/pyct/inspect_utils.py', 'getfutureimports')
+  p0 = gi.params()[0]
+  v = gi.view()
+  fi = core.FuncInfo(gi.module, v, cls=None)
+  srcs = []
+  for n in ast.walk(v):
+    if isinstance(n, (ast.GeneratorExp, ast.ListComp, ast.SetComp)):
+      for g in n.generators:
+        if "'__future__'" in core.norm(n) or '__future__' in core.norm(n):
+          srcs.append(tpl.xnorm(fi, g.iter, g.iter))
+    if isinstance(n, ast.For) and '__future__' in core.norm(n):
+      srcs.append(tpl.xnorm(fi, n.iter, n.iter))
+  ok = bool(srcs) and all(s_.replace('tuple(', '').replace('list(', '').startswith(
+      '%s.__globals__' % p0) for s_ in srcs)
+  rep.check(ok, 'IFACE-FUTURE', '%s:from-own-globals' % gi.site,
+            'the future imports must be read from the globals of the function '
+            'object itself', {'iterates': srcs}, line=gi.node.lineno,
+            witness='a functools.wraps-style wrapper defined in a module with '
+            '`from __future__ import annotations` whose __module__ names another module')
+
+
 def check(model, rep, tier):
   rep.not_decided = ('argument binding at run time; behaviour of '
                      'types.FunctionType (trusted)')
@@ -39,6 +65,8 @@ def check(model, rep, tier):
   rep.rule('IFACE-ARGS', 'parameter list never rebuilt by a pass', floor=1)
   rep.rule('IFACE-DECOR', 'decorator handling', floor=2)
   rep.rule('IFACE-SELF', 'instance prepended for bound methods', floor=1)
+  rep.rule('IFACE-FUTURE', 'future features are those of the function\'s own globals', floor=1)
+  _future_rule(model, rep)
 
   # ---------------------------------------------------------------- IFACE-ERASE
   gtf = model.func(TR, 'GenericTranspiler.transform_function')
